@@ -16,9 +16,9 @@ def instances(tier):
     q = tier == 'quick'
     return [
         {"label": "faults+reactions", "cfg": IDLE,
-         "consts": dict(HttpItems='HttpAll', Items='ItemsQ' if q else 'ItemsT', Cfg='CfgIdle', MaxItems=2 if q else 3,
+         "consts": dict(HttpItems='HttpAll', Items='ItemsQ' if q else 'ItemsT', Cfg='CfgIdle', MaxItems=2,
                         ChunkMax=2, Faults=ALL_FAULTS, NAddr=2, Reacts={"none", "send", "close"}, ReactAt=REACT_AT, AfterClose=True,
-                        MaxReacts=1 if q else 2)},
+                        MaxReacts=1)},
         {"label": "timers", "cfg": TIMERS,
          "consts": dict(HttpItems='HttpOk', Items='ItemsQ', Cfg='CfgTimers', MaxItems=1 if q else 2, ChunkMax=1,
                         MaxIdle=3 if q else 4, Dts={0, 5}, Faults={"recv_error"}, Reacts={"none", "close"},
@@ -53,7 +53,8 @@ def run(tier, seed):
     r.add_tlc('liveness Terminates', res)
     if res.violated:
         raise pipeline.MachineryFailure('model does not terminate: %s' % res.error)
-    results, rej = sessprop.run_model_instances(r, 'MC_C07', 'Mon_C07', insts, kinds={'ev', 'stop', 'escape', 'hang'})
+    results, rej = sessprop.run_model_instances(r, 'MC_C07', 'Mon_C07', insts, kinds={'ev', 'stop', 'escape', 'hang'},
+                                                max_exec=None if tier == 'quick' else 40000)
     seqs = set()
     seen = set()
     for label, b, sc, log in results:
